@@ -469,3 +469,27 @@ MUTANTS += [
                     }''')],
      'expect': {'C02': 'LANG'}},
 ]
+
+# ---- C14 RENDER: separator structure of the text --------------------------------------------------------------------------
+MUTANTS += [
+    {'name': 'c14_f6_reverted', 'edits': [(P, '''            else {
+                /* The object was a field value: a following field needs a separator. */
+                *pstate = 0x02;
+            }
+            printf("}");''', '''            printf("}");'''), (P, '''            else {
+                /* The object was a field value: a following field needs a separator. */
+                *pstate = 0x02;
+            }
+            ret = snprintf(pbuf, available, "}");''', '''            ret = snprintf(pbuf, available, "}");''')],
+     'expect': {'C14': 'RENDER'}},
+    {'name': 'c14_comma_before_first_array_element_after_nested', 'edits': [(P, '''        case BINSON_STATE_PARSED_ARRAY_BEGIN:
+            *pstate = 0x04;
+            printf("[");''', '''        case BINSON_STATE_PARSED_ARRAY_BEGIN:
+            *pstate = (state->array_depth > 1) ? 0x05 : 0x04;
+            printf("[");'''), (P, '''        case BINSON_STATE_PARSED_ARRAY_BEGIN:
+            *pstate = 0x04;
+            ret = snprintf(pbuf, available, "[");''', '''        case BINSON_STATE_PARSED_ARRAY_BEGIN:
+            *pstate = (state->array_depth > 1) ? 0x05 : 0x04;
+            ret = snprintf(pbuf, available, "[");''')],
+     'expect': {'C14': 'RENDER'}},
+]
